@@ -31,7 +31,7 @@ pub fn run(ctx: &RunCtx) -> i32 {
         "C05" => c05::prop().run(ctx),
         "C06" => c06::run(ctx),
         "C07" => c07::run(ctx),
-        "C08" => c08::prop().run(ctx),
+        "C08" => c08::run(ctx),
         "C09" => c09::prop().run(ctx),
         "C10" => c10::run(ctx),
         "C11" => c11::run(ctx),
@@ -60,7 +60,7 @@ pub fn replay(id: &str, v: &serde_json::Value) -> CaseResult {
         "C05" => c05::prop().replay(v),
         "C06" => c06::replay(v),
         "C07" => c07::replay(v),
-        "C08" => c08::prop().replay(v),
+        "C08" => c08::replay(v),
         "C09" => c09::prop().replay(v),
         "C10" => c10::replay(v, false),
         "C11" => c11::replay(v),
